@@ -13,7 +13,8 @@ ENGINE = {'name': 'tee_race',
  'serves': ['C08'],
  'rule': 'tee: a real layer4 App on a unix socket, route  match(tag) -> tee{branch: sink} -> reader ; per (GOMAXPROCS, connections) in '
          '{(1,24),(4,64),(16,128)} (+{(1,128),(4,256),(16,512)} thorough) every client sends a self-identifying stream, the branch sleeps 4..10 ms '
-         'before it reads its share while the main chain has returned and later connections are being matched; race (thorough tier, built with '
+         'before it reads its share, once with a main chain that reads its copy and once (a quarter of the connections) with a main chain that returns at '
+         'once, so that Server.handle has put the buffer back and later connections are being matched while the branch still reads; race (thorough tier, built with '
          '-race, re-executed with GORACE=log_path): 48 concurrent clients through  match openvpn{auth} -> proxy to an upstream with two dial '
          'addresses ; every report with a /repo frame is attributed to the receiver field accessed on the reported line; non-trivial = at least two '
          'branches checked / any race report',
